@@ -6,7 +6,8 @@ File description exported by the spec (JSON of `file`):
   {"nodes": [{"kind": "group"|"object"|"data", "cls": ..., "parent": 0|idx, "rank": int, "ty": tidx}, ...],
    "types": [{"tk": "group"|"object"|"data", "cls": ..., "cmap": bool, "vmap": bool}, ...],
    "pgs":   [{"obj": idx, "members": [idx, ...]}, ...]}
-Entities are numbered like in the spec: -1 = project header, 0 = root group, 1..n = nodes.
+Entities are numbered like in the spec: -1 = project header, 0 = root group, 1..n = nodes,
+PG_BASE + p = property group p.
 Items are [k, n, a] triples (kind, index of node / type / property group, HDF5 name).
 """
 from __future__ import annotations
@@ -23,6 +24,7 @@ import numpy as np
 from .tlc import MachineryError
 
 PROJ, ROOT = -1, 0
+PG_BASE = 100
 BASE = "GEOSCIENCE"
 FLAT = {"group": "Groups", "object": "Objects", "data": "Data"}
 TYPEFLAT = {"group": "Group types", "object": "Object types", "data": "Data types"}
@@ -64,14 +66,17 @@ def build(fspec, path, seed):
     from geoh5py import Workspace
     from geoh5py import objects as gobjects
     from geoh5py.data.color_map import ColorMap
-    from geoh5py.groups import ContainerGroup
+    from geoh5py.groups import ContainerGroup, DrillholeGroup
 
     if os.path.exists(path):
         os.remove(path)
     maps = {"nodes": {}, "types": {}, "pgs": {}}
     with seeded_uuids(seed) as gen:
+        # version 2.0 so that a missing Version shows in the header; files with concatenated storage keep the
+        # current 2.1 (the layout of the concatenated attributes depends on it)
+        version = 2.1 if any(n["cls"] == "DrillholeGroup" for n in fspec["nodes"]) else 2.0
         ws = Workspace.create(path, contributors=("alice", "bob"), distance_unit="feet",
-                              ga_version="4.2", version=2.0)
+                              ga_version="4.2", version=version)
         try:
             ents = {ROOT: ws.root}
             maps["nodes"][ROOT] = str(ws.root.uid)
@@ -80,7 +85,17 @@ def build(fspec, path, seed):
                 parent = ents[node["parent"]]
                 name = f"{node['kind'][0]}{idx}"
                 common = {"name": name, "allow_rename": False, "allow_delete": False}
-                if node["kind"] == "group":
+                if node["cls"] == "DrillholeGroup":
+                    ent = DrillholeGroup.create(ws, parent=parent, uid=gen.ranked(node["rank"]),
+                                                visible=False, public=False, allow_move=False, **common)
+                elif node["cls"] == "Drillhole":
+                    # concatenated storage: the hole and its log live in the datasets of the drillhole group
+                    ent = gobjects.Drillhole.create(
+                        ws, parent=parent, collar=np.r_[1.0 + idx, 10.0, 10.0],
+                        surveys=np.c_[np.linspace(0, 100, 3), np.ones(3) * 45.0, np.linspace(-89, -75, 3)],
+                        visible=False, public=False, allow_move=False, **common)
+                    ent.add_data({"log": {"depth": np.arange(0, 3.0), "values": np.arange(3.0) + 10 * idx}})
+                elif node["kind"] == "group":
                     ent = ContainerGroup.create(ws, parent=parent, uid=gen.ranked(node["rank"]),
                                                 visible=False, public=False, allow_move=False, **common)
                 elif node["kind"] == "object":
@@ -128,6 +143,13 @@ def build(fspec, path, seed):
                             ent.entity_type.color_map = ColorMap(
                                 name="cm.tbl",
                                 values=np.array([[0.0, 1.0, 2.0], [10, 20, 30], [1, 2, 3], [4, 5, 6], [255, 255, 255]]).T)
+                if node["cls"] == "Drillhole":
+                    for tname, tcls in (("DEPTH", "catdepth"), ("log", "catlog")):
+                        tidx = [t for t, ty in enumerate(fspec["types"], 1) if ty.get("cls") == tcls]
+                        tuid = [str(t.uid) for t in ws.types if t.name == tname]
+                        if len(tidx) != 1 or len(tuid) != 1:
+                            raise MachineryError(f"build: concatenated data type {tname}: {tidx} {tuid}")
+                        maps["types"][tidx[0]] = tuid[0]
                 ents[idx] = ent
                 maps["nodes"][idx] = str(ent.uid)
                 tuid = str(ent.entity_type.uid)
@@ -135,7 +157,12 @@ def build(fspec, path, seed):
                     raise MachineryError(f"build: node {idx} did not get type {node['ty']} of the spec")
             for pidx, pg in enumerate(fspec["pgs"], 1):
                 obj = ents[pg["obj"]]
-                group = obj.add_data_to_group([ents[m] for m in pg["members"]], f"pg{pidx}")
+                members = [ents[m] for m in pg["members"]]
+                kwargs = {"uid": gen.ranked(pg.get("rank", 0)), "association": members[0].association.name}
+                if pg.get("named", True):
+                    kwargs["name"] = f"pg{pidx}"          # an unnamed group gets PropertyGroup's default name
+                group = obj.find_or_create_property_group(**kwargs)
+                group.add_properties(members)
                 maps["pgs"][pidx] = str(group.uid)
         finally:
             ws.close()
@@ -228,9 +255,13 @@ def spec_item(concrete, maps):
                 return ["typelink", nidx, "Type"]
             if key == "PropertyGroups":
                 return ["pgcont", nidx, key]
+            if key == "Concatenated Data":
+                return ["cdata", nidx, key]
             if is_ds:
                 return ["dataset", nidx, key]
             return ["childcont", nidx, key]
+        if parts[2] == "Concatenated Data" and kind == "link":
+            return ["cdata", nidx, "/".join(parts[2:] + [key])]
         if len(parts) == 3 and parts[2] == "PropertyGroups":
             return ["pgblock", pg_of[key], ""] if kind == "link" and key in pg_of else None
         if len(parts) == 4 and parts[2] == "PropertyGroups" and kind == "attr" and parts[3] in pg_of:
@@ -337,6 +368,19 @@ def _entity_proj(ent, root_uid):
         val = ent.values
         out["values"] = val if isinstance(val, (str, type(None))) else _digest(val)
     elif hasattr(ent, "property_groups"):
+        if out["cls"].startswith("Concatenated"):
+            # a hole of a drillhole group: its logs and depth tables live in the group's concatenated datasets and
+            # are read through the hole, so they are part of the hole's content
+            out["collar"] = _plain(np.array(ent.collar.tolist()))
+            out["surveys"] = _plain(np.asarray(ent.surveys))
+            out["logs"] = {}
+            for name in sorted(ent.get_data_list()):
+                data = ent.get_data(name)[0]
+                out["logs"][name] = [type(data).__name__, _plain(data.association), _digest(data.values),
+                                     _type_proj(data.entity_type)]
+            out["tables"] = sorted([pg.name, _plain(pg.property_group_type), len(pg.properties or [])]
+                                   for pg in (ent.property_groups or []))
+            return out
         for key in ("vertices", "cells", "origin", "u_cell_size", "v_cell_size", "u_count", "v_count", "rotation",
                     "vertical", "dip", "last_focus"):
             if hasattr(type(ent), key):
@@ -344,11 +388,6 @@ def _entity_proj(ent, root_uid):
                 if isinstance(val, np.ndarray) and val.dtype.names:
                     val = np.array(val.tolist())
                 out[key] = _plain(val)
-        out["property_groups"] = {
-            str(pg.uid): {"name": pg.name, "association": _plain(pg.association),
-                          "kind": _plain(pg.property_group_type),
-                          "properties": sorted(str(p) for p in (pg.properties or []))}
-            for pg in (ent.property_groups or [])}
     return out
 
 
@@ -359,11 +398,25 @@ def project(ws, root_uid=None):
     view = {"PROJECT": {"version": _plain(ws.version), "distance_unit": _plain(ws.distance_unit),
                         "ga_version": _plain(ws.ga_version),
                         "contributors": [str(c) for c in np.asarray(ws.contributors).tolist()]}}
-    for ent in list(ws.groups) + list(ws.objects) + list(ws.data):
+    objects = list(ws.objects)
+    for ent in list(ws.groups) + objects + list(ws.data):
+        if type(ent).__name__.startswith("Concatenated") and hasattr(ent, "values"):
+            continue            # concatenated data are projected with the hole that owns them
         try:
             view[str(ent.uid)] = _entity_proj(ent, root_uid)
         except Exception as exc:  # pylint: disable=broad-except
             view[str(ent.uid)] = {"raises": type(exc).__name__}
+    for obj in objects:     # property groups: what the owning object lists, one entity per group
+        if type(obj).__name__.startswith("Concatenated"):
+            continue
+        for pgroup in obj.property_groups or []:
+            try:
+                view[str(pgroup.uid)] = {
+                    "cls": "PropertyGroup", "name": pgroup.name, "parent": str(pgroup.parent.uid),
+                    "association": _plain(pgroup.association), "kind": _plain(pgroup.property_group_type),
+                    "properties": sorted(str(p) for p in (pgroup.properties or []))}
+            except Exception as exc:  # pylint: disable=broad-except
+                view[str(pgroup.uid)] = {"raises": type(exc).__name__}
     return view
 
 
